@@ -1,5 +1,6 @@
 import ZipVerif.Lemmas.Layers
 import ZipVerif.Lemmas.EntryBridge
+import ZipVerif.Lemmas.EntryBridgeCrypto
 import ZipVerif.Lemmas.ShortRead
 /-
 C09 — Results do not depend on how I/O is chunked.
@@ -341,6 +342,74 @@ theorem stream_entry_chunk_independent {σ₁ σ₂ : Type} (ext : Model.Ext) {f
   rw [hres, hb]
   exact Model.pipeline_eq_decode_crc ext f.method c _ _ _ hc inner₁ s₁ h₁ reqs₁ r₁
 
+/-- **Bytes of a ZipCrypto entry do not depend on chunking - seekable reader, every accepted byte string.**
+The reader model with the crate's own decryption layer (`Model.cryptoExt`: one shot over the whole entry)
+answers `by_index_decrypt(i, pw)` on a ZipCrypto entry with `r`.  Two readers holding the archive's bytes from
+the data start, with arbitrary and different short-read behaviour:
+
+* `r = Err(InvalidPassword)`: `ZipCryptoReader::validate` (a `read_exact` of the 12-byte header through the
+  `Take`) rejects the password over both;
+* `r = Ok(file)` with read-to-end result `res`: `validate` accepts over both, and two read loops over
+  `Crc32Reader(decoder(ZipCryptoReaderValid(Take(..))))` with two arbitrary buffer schedules (zeros included)
+  return the same bytes and end the same way, namely as `res` says - under `CodecFor` for the decoder on the
+  DECRYPTED stream (a theorem for Stored: `codecFor_available`). -/
+theorem archive_entry_chunk_independent_zipcrypto {σ₁ σ₂ : Type} (P : Model.Aes.AesPrims)
+    (decode : Model.Method → Bytes → Out Bytes) (bs : Bytes)
+    {fa₀ : Option Nat} {a : Model.Archive} {d₀ : Model.Dev}
+    (hopen : Model.openArchive fa₀ (Model.Dev.ofBytes bs) = (.ok a, d₀))
+    {i : Nat} {data : Model.FileData} (hfile : a.files[i]? = some data)
+    (henc : data.encrypted = true) (haes : data.aesMode = none) {pw : Bytes} {fa : Option Nat}
+    {d' : Model.Dev} {r : Model.PwResult (Nat × Out Bytes)}
+    (h : Model.byIndexRead (Model.cryptoExt P decode) a i (some pw) fa d₀ = (.ok r, d')) :
+    ∃ ds, ∀ (inner₁ : Src σ₁) (s₁ : σ₁), Denotes inner₁ s₁ (bs.drop ds) .eof →
+      ∀ (inner₂ : Src σ₂) (s₂ : σ₂), Denotes inner₂ s₂ (bs.drop ds) .eof →
+      (r = .invalidPassword →
+        zcValidate Model.ZipCrypto.decryptByte (take inner₁) (s₁, data.compressedSize.toNat)
+          (Model.ZipCrypto.derive pw) (Model.zcCheck data) = .wrongPassword ∧
+        zcValidate Model.ZipCrypto.decryptByte (take inner₂) (s₂, data.compressedSize.toNat)
+          (Model.ZipCrypto.derive pw) (Model.zcCheck data) = .wrongPassword) ∧
+      (∀ res, r = .ok (ds, res) →
+        ∃ st₁ st₂ pt,
+          zcValidate Model.ZipCrypto.decryptByte (take inner₁) (s₁, data.compressedSize.toNat)
+            (Model.ZipCrypto.derive pw) (Model.zcCheck data) = .valid st₁ ∧
+          zcValidate Model.ZipCrypto.decryptByte (take inner₂) (s₂, data.compressedSize.toNat)
+            (Model.ZipCrypto.derive pw) (Model.zcCheck data) = .valid st₂ ∧
+          Model.zipCryptoLayer pw (Model.zcCheck data) ((bs.drop ds).take data.compressedSize.toNat) = .ok (some pt) ∧
+          ∀ (c : Codec), Model.CodecFor (Model.cryptoExt P decode) data.method c pt →
+          ∀ (reqs₁ reqs₂ : List Nat) (b₁ b₂ : Bytes) (t₁ t₂ : Term)
+            (e₁ : c.St ((σ₁ × Nat) × Model.ZipCrypto.Keys) × UInt32)
+            (e₂ : c.St ((σ₂ × Nat) × Model.ZipCrypto.Keys) × UInt32),
+            readToEnd (entryPipelineZc c Model.ZipCrypto.decryptByte inner₁ data.crc32) (c.init st₁, Crc32.init)
+              reqs₁ = some (b₁, t₁, e₁) →
+            readToEnd (entryPipelineZc c Model.ZipCrypto.decryptByte inner₂ data.crc32) (c.init st₂, Crc32.init)
+              reqs₂ = some (b₂, t₂, e₂) →
+            b₁ = b₂ ∧ t₁ = t₂ ∧ res = Model.outOfLoop (b₁, t₁)) := by
+  have hbuf : d₀.buf = bs := by
+    have := Model.openArchive_readOnly.elim fa₀ (Model.Dev.ofBytes bs)
+    rw [hopen] at this; exact this
+  obtain ⟨ds, _, hA⟩ := Model.entry_bridge_zipcrypto hfile henc haes h
+  rw [hbuf] at hA
+  refine ⟨ds, ?_⟩
+  intro inner₁ s₁ h₁ inner₂ s₂ h₂
+  obtain ⟨hA1, hA2⟩ := hA σ₁ inner₁ s₁ h₁
+  obtain ⟨hB1, hB2⟩ := hA σ₂ inner₂ s₂ h₂
+  refine ⟨fun hinv => ⟨hA2 hinv, hB2 hinv⟩, fun res hres => ?_⟩
+  obtain ⟨st₁, hv₁, pt, hpt, hden₁, hrun₁⟩ := hA1 res hres
+  obtain ⟨st₂, hv₂, pt', hpt', hden₂, hrun₂⟩ := hB1 res hres
+  have hpp : pt' = pt := by
+    rw [hpt] at hpt'
+    injection hpt' with hpt'
+    injection hpt' with hpt'
+    exact hpt'.symm
+  subst hpp
+  refine ⟨st₁, st₂, pt', hv₁, hv₂, hpt, ?_⟩
+  intro c hc reqs₁ reqs₂ b₁ b₂ t₁ t₂ e₁ e₂ r₁ r₂
+  have q₁ := hrun₁ c hc reqs₁ b₁ t₁ e₁ r₁
+  have hd₁ := Model.Layers.crc_denotes_nz _ data.crc32 false (hc.chunk _ _ hden₁)
+  have hd₂ := Model.Layers.crc_denotes_nz _ data.crc32 false (hc.chunk _ _ hden₂)
+  obtain ⟨hb, ht⟩ := read_loops_agree hd₁ hd₂ r₁ r₂
+  exact ⟨hb, ht, q₁⟩
+
 /-- `CodecFor` for Stored entries is a theorem (no decoder), for compressed entries whose stored bytes
 are an encoder's output it follows from `Codec.IntactOK`. -/
 theorem codecFor_available (ext : Model.Ext) :
@@ -392,6 +461,45 @@ theorem find_content_short_read_independent (f : Model.FileData) (sch : Nat → 
   have h := (Model.G.sim_findContent f).elim sch d sd ⟨hb, hp⟩
   rw [Model.G.findContent_M] at h
   exact h
+
+/-- **Streaming reader, one header** (`read_zipfile_from_stream` up to the construction of the entry; no
+seek is ever issued): from any state of the reader, over any short-read schedule, the same local record -
+or "central directory reached", or the same error - and the reader is left at the same position. -/
+theorem stream_header_short_read_independent (sch : Nat → Nat) (d sd : Model.Dev) (hb : sd.buf = d.buf)
+    (hp : sd.pos = d.pos) :
+    ∃ o d' sd', Model.streamHeader none d = (o, d') ∧
+      (Model.G.streamHeader : Model.MS (Option Model.FileData)) sch sd = (o, sd') ∧
+      sd'.buf = d'.buf ∧ sd'.pos = d'.pos := by
+  have h := Model.G.sim_streamHeader.elim sch d sd ⟨hb, hp⟩
+  rw [Model.G.streamHeader_M] at h
+  exact h
+
+/-- **Streaming reader, the whole visit** (`ZipStreamReader::visit`: every entry in stream order - header,
+then its data drained to the end of its `Take`, which is what positions the reader for the next header -
+then the central directory records).  For every byte string and every short-read schedule the visitor sees
+exactly the events it sees over the `Cursor`: the same entries with the same metadata and the same
+read-to-end results, the same central records, or the same error. -/
+theorem stream_visit_short_read_independent (ext : Model.Ext) (bs : Bytes) (sch : Nat → Nat) :
+    ∃ o d' sd', Model.streamVisit ext none (Model.Dev.ofBytes bs) = (o, d') ∧
+      (Model.G.streamVisitF ext (bs.length / 30 + 1) (bs.length / 46 + 1) :
+        Model.MS (List (Model.FileData × Out Bytes) × List Model.FileData)) sch (Model.Dev.ofBytes bs) = (o, sd') ∧
+      sd'.buf = d'.buf ∧ sd'.pos = d'.pos := by
+  have h := (Model.G.sim_streamVisitF ext (bs.length / 30 + 1) (bs.length / 46 + 1)).elim sch
+    (Model.Dev.ofBytes bs) (Model.Dev.ofBytes bs) ⟨rfl, rfl⟩
+  rw [Model.G.streamVisit_M]
+  exact h
+
+/-- Two schedules show the visitor the same events. -/
+theorem stream_visit_schedules_agree (ext : Model.Ext) (bs : Bytes) (sch₁ sch₂ : Nat → Nat) :
+    ((Model.G.streamVisitF ext (bs.length / 30 + 1) (bs.length / 46 + 1) :
+        Model.MS (List (Model.FileData × Out Bytes) × List Model.FileData)) sch₁ (Model.Dev.ofBytes bs)).1 =
+    ((Model.G.streamVisitF ext (bs.length / 30 + 1) (bs.length / 46 + 1) :
+        Model.MS (List (Model.FileData × Out Bytes) × List Model.FileData)) sch₂ (Model.Dev.ofBytes bs)).1 := by
+  obtain ⟨o₁, _, _, e₁, f₁, _⟩ := stream_visit_short_read_independent ext bs sch₁
+  obtain ⟨o₂, _, _, e₂, f₂, _⟩ := stream_visit_short_read_independent ext bs sch₂
+  rw [f₁, f₂]
+  rw [e₁] at e₂
+  exact (Prod.mk.inj e₂).1
 
 /-- The short-reading device as a reader of the layer model: delivers the bytes behind its position,
 then a clean end of file, under every schedule. -/
@@ -598,12 +706,48 @@ example :
     Model.openReadBoth Model.oneEntry 0 [5] [1, 1, 1] = some (31, [0x5a], some ([0x5a], .eof)) := by
   refine ⟨by decide +kernel, by decide +kernel⟩
 
+/-- `archive_entry_chunk_independent_zipcrypto` on a concrete archive (117 bytes, one Stored entry `a` =
+`[1,2,3,4,5]` ZipCrypto-encrypted under "pw", produced by the writer model): accepted, entry 0 handed out by
+the reader model (one-shot decryption) with content `[1,2,3,4,5]`; `validate` + the call-by-call read through
+`Crc32Reader(ZipCryptoReaderValid(Take(..)))` give the same over a reader delivering 1 byte at a time with
+buffers 0,3,0,3,… and over one delivering 7 bytes at a time with buffers 1,1,…; the wrong password is rejected. -/
+example :
+    Model.zcReadBoth Model.zcEntry 0 [0x70, 0x77] [1] [0, 3, 0, 3, 3, 3, 3, 3, 3] =
+      some (31, [1, 2, 3, 4, 5], some ([1, 2, 3, 4, 5], .eof)) ∧
+    Model.zcReadBoth Model.zcEntry 0 [0x70, 0x77] [7] [1, 1, 1, 1, 1, 1] =
+      some (31, [1, 2, 3, 4, 5], some ([1, 2, 3, 4, 5], .eof)) ∧
+    Model.zcReadBoth Model.zcEntry 0 [0x70, 0x78] [7] [1, 1, 1, 1, 1, 1] = none := by
+  refine ⟨by decide +kernel, by decide +kernel, by decide +kernel⟩
+
 /-- `open_archive_short_read_independent` observed on the 101-byte archive: one byte per call and the
 `Cursor` give the same single entry `a` and end at the same position; the short-reading run needed
 more calls (so short reads did occur). -/
 example :
     (Model.openBoth Model.oneEntry (fun _ => 1)).map (fun r => (r.1, r.2.1, r.2.2.1.2 == r.2.2.2.2,
       decide (r.2.2.1.1 < r.2.2.2.1))) = some ([[0x61]], [[0x61]], true, true) := by
+  decide +kernel
+
+/-- For the example below: the streaming visit of `bs` over the `Cursor` and over the short-reading
+device (names of the streamed entries with their read-to-end results, names of the central records, final
+position; number of `read` calls of both runs). -/
+def streamBoth (bs : Bytes) (sch : Nat → Nat) :
+    Option ((List (Bytes × Option Bytes) × List Bytes × Nat) × Bool × Bool) :=
+  let view (r : List (Model.FileData × Out Bytes) × List Model.FileData) (d : Model.Dev) :
+      List (Bytes × Option Bytes) × List Bytes × Nat :=
+    (r.1.map (fun x => (x.1.fileNameRaw, match x.2 with | .ok b => some b | _ => none)),
+      r.2.map (fun (f : Model.FileData) => f.fileNameRaw), d.pos)
+  match Model.streamVisit Model.storedExt none (Model.Dev.ofBytes bs),
+    (Model.G.streamVisitF Model.storedExt (bs.length / 30 + 1) (bs.length / 46 + 1) :
+      Model.MS (List (Model.FileData × Out Bytes) × List Model.FileData)) sch (Model.Dev.ofBytes bs) with
+  | (.ok a, d), (.ok b, sd) => some (view a d, decide (view a d = view b sd), decide (d.calls < sd.calls))
+  | _, _ => none
+
+set_option synthInstance.maxSize 1000 in
+/-- `stream_visit_short_read_independent` observed on the 101-byte archive: over a reader that delivers one
+byte per call the visitor sees the same entry `a` with content "Z", the same central record, and stops at
+the same position (83: behind the central record); the short-reading run needed more calls. -/
+example :
+    streamBoth Model.oneEntry (fun _ => 1) = some (([([0x61], some [0x5a])], [[0x61]], 83), true, true) := by
   decide +kernel
 
 /-- `header_writes_absorb_short_writes` observed: two chunks written at position 1 of a 3-byte device
